@@ -85,7 +85,7 @@ type window struct {
 }
 
 type unitKey struct {
-	write                     bool
+	write                    bool
 	rank, bg, bank, row, col uint64
 }
 
@@ -119,8 +119,8 @@ type monitor struct {
 
 func newMonitor(c *kit.Case, cc caseCfg, comp string, sp dram.Spec) *monitor {
 	return &monitor{c: c, r: c.R, cc: cc, comp: comp, sp: sp, L: limitsFrom(cc.Stack.Mem.Preset, sp),
-		period:   uint64(sp.Freq.Period()),
-		banks:    map[bankKey]*bank{}, rankActs: map[uint64][]int64{},
+		period: uint64(sp.Freq.Period()),
+		banks:  map[bankKey]*bank{}, rankActs: map[uint64][]int64{},
 		lastRD: map[[2]uint64]int64{}, lastWR: map[[2]uint64]int64{}, lastCyc: -1,
 		kinds: map[string]int{}, tightLocal: map[string]int{}, units: map[unitKey]int{}}
 }
